@@ -66,8 +66,16 @@ def probe_env(op: Op, cfg: Dict[str, Any], seed: int, env: str, draws: int = 2, 
             return probe(op, cfg, seed, draws=draws, gdraws=gdraws)
         finally:
             torch.set_default_dtype(old)
-    if env in ("noncontiguous", "expanded_batch"):
+    if env in ("noncontiguous", "expanded_batch") or env.startswith("magnitude="):
         return probe(op, cfg, seed, draws=draws, gdraws=gdraws, layout=env)
+    if env.startswith("freeze="):
+        return probe(op, cfg, seed, draws=draws, gdraws=gdraws, freeze=env.split("=")[1])
+    if env.startswith("after_dtype="):
+        try:  # history: the same configuration is first used in a low-precision dtype
+            probe(op, dict(cfg, dtype=env.split("=")[1]), seed, draws=1, gdraws=1)
+        except Exception:  # noqa
+            pass
+        return probe(op, cfg, seed, draws=draws, gdraws=gdraws)
     with contextlib.nullcontext():
         return probe(op, cfg, seed, draws=draws, gdraws=gdraws)
 
@@ -81,6 +89,9 @@ def relayout(t: Dict[str, Any], layout: str) -> Dict[str, Any]:
     for k, v in t.items():
         if not isinstance(v, torch.Tensor) or not v.is_floating_point() or v.dim() == 0:
             out[k] = v
+            continue
+        if layout.startswith("magnitude="):
+            out[k] = (v.double() * float(layout.split("=")[1])).to(v.dtype) if k == "input" else v
             continue
         if layout == "noncontiguous":
             if v.dim() >= 2:
@@ -99,7 +110,8 @@ def relayout(t: Dict[str, Any], layout: str) -> Dict[str, Any]:
     return out
 
 
-def probe(op: Op, cfg: Dict[str, Any], seed: int, draws: int = 2, gdraws: int = 2, layout: str = "") -> Dict[str, Any]:
+def probe(op: Op, cfg: Dict[str, Any], seed: int, draws: int = 2, gdraws: int = 2, layout: str = "",
+          freeze: str = "") -> Dict[str, Any]:
     """Returns {"skipped": reason} | {"unit_exc": exc} | {"draws": [...]}; every draw holds the
     forward scalar/residual, per-input backward scalars/residuals for each upstream-gradient
     draw, shape/dtype agreement, modification flags and a repeated-call comparison."""
@@ -112,7 +124,7 @@ def probe(op: Op, cfg: Dict[str, Any], seed: int, draws: int = 2, gdraws: int = 
             t = op.make(cfg, g)
         except Exception as e:  # noqa  (builder could not make this config: outside the lattice)
             return {"skipped": f"build:{type(e).__name__}"}
-        diff = diff_names(op, t, cfg)
+        diff = [k for k in diff_names(op, t, cfg) if k != freeze]
         if layout:
             t = relayout(t, layout)
             tu = {k: (v.detach().requires_grad_(k in diff) if isinstance(v, torch.Tensor) and v.is_floating_point() else v) for k, v in relayout(_clone_inputs(t, []), layout).items()}
